@@ -96,4 +96,28 @@ def run_fmt(chk, rng, n):
                 nbad += 1
                 chk.tie_broken('correspondence', 'fmt', 'format_float (%r, use_e=%s) is %r, model %r' % (f, c['e'], rr['s'], ms))
                 chk.notes.setdefault('fmt_fail', []).append(dict(f=c['f'], use_e=c['e']))
-    chk.stages['fmt'] = dict(cases=len(cases), compared=ncmp, disagreements=nbad, kinds=kinds)
+    # the character-level reader of Proofs/FormatT.v, run inside Coq on the REAL texts, against Python's Decimal
+    from decimal import Decimal
+    texts = [(c, real[c['id']]['s']) for c in cases if c['id'] in real and 's' in real[c['id']]]
+    groups = [texts[k:k + per] for k in range(0, len(texts), per)]
+    jobs = [('prs_%d_%d' % (os.getpid(), gi),
+             HEADER + 'Eval vm_compute in parse_cases %s.\n' % coq_list([coq_list(['%d%%N' % ord(ch) for ch in t]) for c, t in g]))
+            for gi, g in enumerate(groups)]
+    outs = coq_evals(jobs)
+    npr = nprbad = 0
+    for g, (rc, out) in zip(groups, outs):
+        m = re.search(r'(?s)=\s*(\[.*\])\s*:\s*list \(list Z\)', out)
+        if rc != 0 or not m:
+            chk.tie_broken('correspondence', 'fmt', 'reader evaluation failed: ' + out[-600:]); continue
+        rows = re.findall(r'\[([^\[\]]*)\]', m.group(1))
+        if len(rows) != len(g):
+            chk.tie_broken('correspondence', 'fmt', 'reader returned %d results for %d texts' % (len(rows), len(g))); continue
+        for (c, t), row in zip(g, rows):
+            v = [int(x) for x in re.findall(r'-?\d+', row)]
+            npr += 1
+            want = Decimal(t.strip())
+            ok = len(v) == 3 and (Decimal(-1 if v[0] else 1) * Decimal(v[1]).scaleb(v[2])) == want and (bool(v[0]) == t.startswith('-'))
+            if not ok:
+                nprbad += 1
+                chk.tie_broken('correspondence', 'fmt', 'the reader of Proofs/FormatT.v reads %r as %r, Python reads %s' % (t, v, want))
+    chk.stages['fmt'] = dict(cases=len(cases), compared=ncmp, disagreements=nbad, kinds=kinds, texts_read_back=npr, reader_disagreements=nprbad)
